@@ -127,7 +127,23 @@ fn hostile_conn(r: &mut Rng, nonce: &mut u64, port: u16, span_ms: u64) -> ConnPl
     }
     let my = *nonce;
     *nonce += 1;
-    match r.below(11) {
+    match r.below(12) {
+        11 => {
+            // a request whose typed parameters or body cannot be decoded (one
+            // malformation from the C10 catalogue): malformed, so 4xx/5xx
+            use super::echo_gen::{gen_form, gen_narrow, gen_page, gen_typed};
+            let mut e = match r.below(4) {
+                0 => gen_form(r, my, 0, 0),
+                1 => gen_narrow(r, my, 0, 0),
+                2 => gen_page(r, my, 0, 0),
+                _ => gen_typed(r, my, 0, 0),
+            };
+            let why = super::c10::malform(r, &mut e);
+            c.steps.push(Step::Send { data: Blob(e.h1_bytes()), completes: Some(0) });
+            c.reqs.push(hostile("ill_typed_request", why.is_some(), my));
+            c.steps.push(Step::AwaitResponses { count: 1, max_ms: 35_000 });
+            c.steps.push(Step::Close);
+        }
         10 => {
             // an otherwise valid request to a typed-body or multipart endpoint
             // whose Content-Type value is not text: "invalid header values
